@@ -6,7 +6,7 @@
    release).  All statements hold for every plan and every schedule, by induction over the schedule. *)
 From Coq Require Import List Arith Bool.
 Import ListNotations.
-From PySM Require Import Impl.Conc Impl.ConcNested Proofs.ConcProofs Proofs.ConcNestedProofs.
+From PySM Require Import Impl.Conc Impl.ConcNested Proofs.ConcProofs Proofs.ConcNestedProofs Impl.ConcFail Proofs.ConcFailProofs.
 
 (* the callback sequences of different events never overlap: the log is a sequence of complete
    Begin/End blocks, plus at most one block still open *)
@@ -89,6 +89,32 @@ Theorem C06_nested_nothing_stranded :
     (forall t, nfinished w t) -> nw_queue w = [] /\ begun (nw_log w) = nw_puts w.
 Proof. exact nested_nothing_stranded. Qed.
 Print Assumptions C06_nested_nothing_stranded.
+
+(* ---- callbacks that FAIL while other threads send (C04 meets C06) ---- *)
+(* the drainer clears the queue, releases the lock, looks at the queue once more (fix 894918f) and
+   re-raises: for every plan, every set of failing events and every schedule, once every sender has
+   returned nothing is left in the queue and the lock is free *)
+Theorem C06_nothing_stranded_when_callbacks_fail :
+  forall fails plan sched,
+    let w := frun fails true sched (finit plan) in
+    (forall t, ffinished w t) -> fw_queue w = [].
+Proof. exact nothing_stranded_with_failures. Qed.
+Print Assumptions C06_nothing_stranded_when_callbacks_fail.
+
+Theorem C06_lock_free_when_all_returned_with_failures :
+  forall fails plan sched,
+    let w := frun fails true sched (finit plan) in
+    (forall t, ffinished w t) -> fw_holder w = None.
+Proof. exact lock_free_when_all_returned. Qed.
+Print Assumptions C06_lock_free_when_all_returned_with_failures.
+
+(* without that second look on the failure path (the code before the fix) the statement is false: the
+   schedule below - reproduced on the real engine by the scheduler, deviation D26 - strands (1, 0) *)
+Theorem C06_stranded_without_recheck_on_failure_refuted :
+  let w := frun d26_fails false d26_sched (finit d26_plan) in
+  (forall t, ffinished w t) /\ fw_queue w = [(1, 0)].
+Proof. exact stranded_without_the_recheck_refuted. Qed.
+Print Assumptions C06_stranded_without_recheck_on_failure_refuted.
 
 Example C06_nonvacuous :
   let w := run Line [0; 1; 0; 1; 0; 0; 0; 0; 0; 0; 0; 0] (init (fun _ => 1)) in
